@@ -15,7 +15,7 @@ CHECK = {
              "under all three orders, so that several tracks of one step share the stack; every "
              "allocation is judged by the sequential model of the stack (request n succeeds iff used + "
              "n <= capacity). part initializer: initializer capacity {1,2,3,4,6} x slots {1,2} x track "
-             "order {none, init_charge, reindex_status}, 100 MeV primaries that multiply; a call must "
+             "order {none, init_charge, reindex_status} x secondary stack {default factor 3; for slots 2 and Q in {2,3} also starved to 2 / 3 entries, so that both limits are tight together}, 100 MeV primaries that multiply; a call must "
              "throw RuntimeError exactly when the ledger of pending initializers exceeds the capacity "
              "(exact fit must pass); primaries at the limit into the empty queue (Q accepted, Q+1 "
              "rejected) and, for every history with one deviation, into the pending queue (Q-q "
